@@ -40,8 +40,10 @@ type zoneEpoch struct {
 }
 
 type zone struct {
-	start  time.Time
-	epochs []zoneEpoch
+	start   time.Time
+	epochs  []zoneEpoch
+	aQuery  simrt.Counter // A queries for svc.test.
+	queries simrt.Counter // all queries
 }
 
 func (z *zone) at(now time.Time) map[string][]string {
@@ -72,7 +74,12 @@ func serveDNS(c net.Conn, z *zone) {
 		}
 		m := new(dns.Msg)
 		m.SetReply(&q)
+		m.Authoritative, m.RecursionAvailable = true, true // an empty answer without these is a "lame referral" and is retried
 		name := strings.ToLower(q.Question[0].Name)
+		z.queries.Inc()
+		if name == "svc.test." && q.Question[0].Qtype == dns.TypeA {
+			z.aQuery.Inc()
+		}
 		addrs, ok := z.at(time.Now())[name]
 		if !ok {
 			m.Rcode = dns.RcodeNameError
@@ -176,7 +183,7 @@ func runDial(tt *testing.T, tape *simrt.Tape, keep bool) (out simrt.Outcome) {
 		w = simrt.NewWorld(tape)
 		w.Log.Keep = keep
 		w.Advance(time.Duration(tape.Choose(1000)) * time.Millisecond) // the dial path seeds its generator from the clock
-		mode := []string{"dns", "connect-to", "dns+connect-to", "connect-to+dns"}[tape.Choose(4)]
+		mode := []string{"dns", "connect-to", "dns+connect-to", "connect-to+dns", "dns-disabled"}[tape.Choose(5)]
 		// address sets
 		v4 := []string{"10.0.0.1", "10.0.0.2", "10.0.0.3", "10.0.0.4", "10.0.0.5", "10.0.0.6", "10.0.0.7", "10.0.0.8"}
 		v6 := []string{"fd00::1", "fd00::2", "fd00::3", "fd00::4", "fd00::5", "fd00::6", "fd00::7", "fd00::8"}
@@ -198,6 +205,9 @@ func runDial(tt *testing.T, tape *simrt.Tape, keep bool) (out simrt.Outcome) {
 			return s
 		}
 		ttl := []time.Duration{0, 0, 5 * time.Second, time.Minute}[tape.Choose(4)]
+		if mode == "dns-disabled" {
+			ttl = -1 // documented: a negative ttl disables caching altogether
+		}
 		z := &zone{start: time.Now()}
 		first := map[string][]string{"svc.test.": pick(), "alt1.test.": pick(), "alt2.test.": pick()}
 		z.epochs = []zoneEpoch{{0, first}}
@@ -252,7 +262,7 @@ func runDial(tt *testing.T, tape *simrt.Tape, keep bool) (out simrt.Outcome) {
 		client := &http.Client{Transport: tr}
 		opts := []func(*vegeta.Attacker){vegeta.Client(client)}
 		switch mode {
-		case "dns":
+		case "dns", "dns-disabled":
 			opts = append(opts, vegeta.DNSCaching(ttl))
 		case "connect-to":
 			opts = append(opts, vegeta.ConnectTo(cmap))
@@ -418,6 +428,33 @@ func runDial(tt *testing.T, tape *simrt.Tape, keep bool) (out simrt.Outcome) {
 		if viol == nil {
 			checkDialHistory(fail, stats, mode, ttl, z, first, changes, cmap, mapped, repl, order, long)
 		}
+		if viol == nil {
+			// what the ttl value means, seen at the DNS server (fake time)
+			svcDials := 0
+			for _, d := range order {
+				if d.target == "svc.test:80" {
+					svcDials++
+				}
+			}
+			aq := z.aQuery.Load()
+			switch {
+			case mode == "dns-disabled":
+				if z.queries.Load() != 0 {
+					fail("C18.ttl-negative-queries", "DNSCaching(-1) must not resolve at all, yet %d DNS queries were sent", z.queries.Load())
+				}
+			case mode == "dns" && ttl == 0 && svcDials > 0:
+				if aq != 1 {
+					fail("C18.ttl-zero-queries", "DNSCaching(0) caches forever: %d dials over %v of fake time must cause exactly one lookup of the host, the server saw %d", svcDials, w.Now(), aq)
+				}
+				stats["probe.ttl-forever-one-lookup"]++
+			case mode == "dns" && ttl > 0 && svcDials > 0:
+				// one lookup, then at most one refresh per ttl of elapsed fake time
+				if max := 2 + int64(w.Now()/ttl); aq < 1 || aq > max {
+					fail("C18.ttl-refresh-queries", "DNSCaching(%v): over %v of fake time the host was looked up %d times (want 1..%d)", ttl, w.Now(), aq, max)
+				}
+				stats["probe.ttl-refresh-counted"]++
+			}
+		}
 		atk.Stop() // ends the refresh goroutine of the DNS cache
 		for round := 0; round < 100000; round++ {
 			if len(w.Pending) == 0 {
@@ -515,6 +552,13 @@ func checkDialHistory(fail func(string, string, ...any), stats map[string]int, m
 				return
 			}
 			stats["probe.passthrough-dial"]++
+			continue
+		}
+		if mode == "dns-disabled" {
+			if len(d.attempts) != 1 || d.attempts[0] != d.target {
+				fail("C18.ttl-negative-resolves", "with DNS caching disabled the dial function must receive %s itself, it received %q", d.target, d.attempts)
+				return
+			}
 			continue
 		}
 		var allowed map[string]bool
